@@ -33,6 +33,7 @@ import (
 	"github.com/boz/kcache/nsname"
 	corev1 "k8s.io/api/core/v1"
 	metav1 "k8s.io/apimachinery/pkg/apis/meta/v1"
+	"k8s.io/apimachinery/pkg/labels"
 )
 
 var wedgeSeen int32 // set after the first confirmed wedge in this process
@@ -899,6 +900,47 @@ func (w *world) refilterRawAll(n *node) {
 	}
 	w.h("refilter %s %s -> raw filter.All()", n.name, w.filtName(n.filt))
 	n.filt = -3
+}
+
+// rawAcceptAll: unwrapped filters that accept every object (markers included), each a different
+// spelling a caller may use: the library's own Null(), the empty conjunction, composites of those,
+// the negation of All(), and label filters without requirements.
+var rawAcceptAll = []struct {
+	name string
+	mk   func() filter.Filter
+}{
+	{"filter.Null()", func() filter.Filter { return filter.Null() }},
+	{"filter.And()", func() filter.Filter { return filter.And() }},
+	{"filter.Or(filter.And())", func() filter.Filter { return filter.Or(filter.And()) }},
+	{"filter.Not(filter.All())", func() filter.Filter { return filter.Not(filter.All()) }},
+	{"filter.Labels(nil)", func() filter.Filter { return filter.Labels(nil) }},
+	{"filter.Labels({})", func() filter.Filter { return filter.Labels(map[string]string{}) }},
+	{"filter.Selector(labels.Everything())", func() filter.Filter { return filter.Selector(labels.Everything()) }},
+	{"filter.LabelSelector(&LabelSelector{})", func() filter.Filter { return filter.LabelSelector(&metav1.LabelSelector{}) }},
+	{"filter.And(filter.Null(), filter.Or(filter.Null()))", func() filter.Filter { return filter.And(filter.Null(), filter.Or(filter.Null())) }},
+}
+
+// refilterRawNull supplies one of the unwrapped accept-everything filters (markers pass them
+// anyway); the reference predicate is the family's accept-all member.
+func (w *world) refilterRawNull(n *node, flavour int) {
+	fl := rawAcceptAll[flavour%len(rawAcceptAll)]
+	f := fl.mk()
+	var err error
+	done := make(chan struct{})
+	go func() {
+		if n.fsub != nil {
+			err = n.fsub.Refilter(f)
+		} else {
+			err = n.fctl.Refilter(f)
+		}
+		close(done)
+	}()
+	w.waitFor(done, fmt.Sprintf("Refilter() call on %s returning", n.path()))
+	if err != nil {
+		w.fail("Refilter on live node %s failed: %v", n.path(), err)
+	}
+	w.h("refilter %s %s -> raw %s", n.name, w.filtName(n.filt), fl.name)
+	n.filt = 0
 }
 
 func (w *world) markClosed(n *node) {
